@@ -13,7 +13,7 @@ PROPS = {
     },
     "C15": {
         "prop_file": "Properties/C15.v",
-        "coq_targets": ["Properties/C15.vo", "Cases/IriRun.vo"],
+        "coq_targets": ["Properties/C15.vo", "Cases/IriRun.vo", "Data/Tie.vo"],
         "families": [{"module": H, "cmd": "iri"}],
         "trusted_base": ["SHA-256 implemented in Gallina (test vectors proved); theorems hold for any 4-byte checksum function"],
         "assumptions": ["base58 alphabet/table and IRI field layout come from Generated/DataConsts.v"],
@@ -27,7 +27,7 @@ PROPS = {
     },
     "C20": {
         "prop_file": "Properties/C20.v",
-        "coq_targets": ["Properties/C20.vo", "Cases/IntertxRun.vo"],
+        "coq_targets": ["Properties/C20.vo", "Cases/IntertxRun.vo", "Intertx/Tie.vo"],
         "families": [{"module": HI, "cmd": "intertx"}],
         "trusted_base": ["ICA controller and capability keepers are oracles (section variables); ibc-go SerializeCosmosTx tied by correspondence"],
         "assumptions": ["block time + 1 minute representable as int64 nanoseconds"],
@@ -44,13 +44,13 @@ LEDGER_AS = ["every credit type has precision 6 (enforced by CreditType.Validate
 PROPS.update({
     "C08": {
         "prop_file": "Properties/C08.v",
-        "coq_targets": ["Properties/C08.vo", "Cases/LedgerRun.vo"],
+        "coq_targets": ["Properties/C08.vo", "Cases/LedgerRun.vo", "Ledger/Tie.vo"],
         "families": [LEDGER],
         "trusted_base": LEDGER_TB, "assumptions": LEDGER_AS,
     },
     "C10": {
         "prop_file": "Properties/C10.v",
-        "coq_targets": ["Properties/C10.vo", "Cases/LedgerRun.vo"],
+        "coq_targets": ["Properties/C10.vo", "Cases/LedgerRun.vo", "Ledger/Tie.vo"],
         "families": [LEDGER],
         "trusted_base": LEDGER_TB + ["runtime determinism (IAVL hashes, gas, events, map order, restarts) is checked by replicated executions, which are tests, not proofs"],
         "assumptions": LEDGER_AS,
@@ -58,7 +58,7 @@ PROPS.update({
     },
     "C18": {
         "prop_file": "Properties/C18.v",
-        "coq_targets": ["Properties/C18.vo", "Cases/LedgerRun.vo"],
+        "coq_targets": ["Properties/C18.vo", "Cases/LedgerRun.vo", "Ledger/Tie.vo"],
         "families": [LEDGER],
         "trusted_base": LEDGER_TB, "assumptions": LEDGER_AS,
     },
